@@ -267,10 +267,46 @@ func main() {
 			run(Case{Base: jb.base.Name, Mutations: pm, Doc: doc})
 		}
 	})
+	// large documents (more than a MiB in both encodings): a well-formed one, and the same with one
+	// defect in its LAST device - what a reader that looks at a prefix of the file would miss
+	large := 0
+	if only == "" && len(bases) > 0 {
+		b := bases[0]
+		var devs []any
+		for i := 0; i < 9000; i++ {
+			devs = append(devs, map[string]any{"name": fmt.Sprintf("dev%05d", i), "containerEdits": map[string]any{"env": []any{fmt.Sprintf("INDEX=%d", i), "PAD=" + strings.Repeat("x", 100)}}})
+		}
+		last := func(d map[string]any) []any { return append(append([]any{}, devs...), d) }
+		variants := []struct {
+			name string
+			devs []any
+		}{
+			{"valid", last(map[string]any{"name": "last", "containerEdits": map[string]any{"env": []any{"A=b"}}})},
+			{"last-device-duplicate-name", last(map[string]any{"name": "dev00000", "containerEdits": map[string]any{"env": []any{"A=b"}}})},
+			{"last-device-empty-edits", last(map[string]any{"name": "last", "containerEdits": map[string]any{}})},
+			{"last-device-env-without-equals", last(map[string]any{"name": "last", "containerEdits": map[string]any{"env": []any{"NOEQUALS"}}})},
+			{"last-device-unknown-member", last(map[string]any{"name": "last", "containerEdits": map[string]any{"env": []any{"A=b"}}, "unknownMember": true})},
+			{"last-device-invalid-name", last(map[string]any{"name": "-last", "containerEdits": map[string]any{"env": []any{"A=b"}}})},
+		}
+		w := <-workers
+		for _, v := range variants {
+			m := gen.Mutation{Class: "large-document:" + v.name, Path: gen.Path{"devices"}, Op: "set", Value: v.devs}
+			res := w.eval(Case{Base: b.Name, Mutations: []gen.Mutation{{Class: m.Class}}, Doc: gen.Apply(b.Tree, m)})
+			large++
+			r.AddEvals(1, 1)
+			r.Outcome(res.Outcome)
+			if res.Fail != nil {
+				res.Fail.Case = map[string]any{"base": b.Name, "large_document": v.name, "devices": len(v.devs)}
+				r.Fail(res.Fail)
+			}
+		}
+		workers <- w
+	}
+	r.Extra["large_documents"] = large
 	r.Rule = fmt.Sprintf("%d well-formed base documents (combinations of optional members, 1-3 devices, every edit kind, exact-minimum and current versions, six kind spellings) "+
 		"+ every single defect of the statement's kinds at every position (spec level, first/middle/last device, first/last list element): %d documents; %d defect pairs on a 3-base core; "+
 		"each rendered as JSON and YAML and run through ParseSpec, ReadSpec, manual-cache Refresh+GetErrors+ListDevices, and WriteSpec when representable in the Go types. "+
-		"Oracle: independent validator over the document tree (refmodel.SpecTree). Distinct by construction; non-trivial = the model gives a definite verdict (valid/invalid)", len(bases), singles.Load(), pairs.Load())
+		"plus 6 documents of 9001 devices (> 1 MiB), one valid and five with a defect in the last device. Oracle: independent validator over the document tree (refmodel.SpecTree). Distinct by construction; non-trivial = the model gives a definite verdict (valid/invalid)", len(bases), singles.Load(), pairs.Load())
 	r.Assumptions = []string{"documents whose verdict the statement leaves open (null for an optional member, v-prefixed version, empty closID) are only checked for absence of panics",
 		"kinds on which SPEC.md prose and the statement's grammar could differ are not generated", "member-name case variants and duplicate keys are not generated"}
 	close(selfcheck)
